@@ -8,6 +8,8 @@ the modelled part is logic, not data):
   * e2e  — generated programs (flows with parameters/defaults, assign / global / return / send / nested calls in the
            forms await / start / activate) through the real `run_to_completion`, against `Bind.exec`:
            emitted events and the final context of every flow instance (in creation order) and the global context;
+  * hist — (kind e2e) histories with in-place mutation of default / local containers and repeated calls with omitted
+           arguments, against the heap interpreter `Bind.hexec` (reference semantics; also the callee ENTRY contexts);
   * probe— event-driven privacy programs (instances that wait, are resumed later and emit their variables) and
            aliasing programs (in-place `append`/`update` on a passed list/dict); oracle only.
 Oracle (independent of the Lean model): `spec_run`, a direct transcription of the property statement — parameter i gets
@@ -32,7 +34,12 @@ RULE = ("fn: signature of 0-5 parameters (each with/without default; defaults of
         "signatures <= 3 parameters are enumerated. e2e: random programs of 1-3 callee flows (echo parameters, same-named "
         "locals, globals, nested calls, return expressions) called from main by await/start/activate. probe: waiting "
         "siblings/callees resumed by events, in-place mutation of passed containers, return-value capture (await / start + match "
-        "$r.Finished() / match f(..).Finished()) inside bodies duplicated by the `when` expansion (or-groups, cases, else, nested). non-trivial = at least one parameter "
+        "$r.Finished() / match f(..).Finished()) inside bodies duplicated by the `when` expansion (or-groups, cases, else, nested). "
+        "hist (kind e2e): histories with in-place mutation — flows whose parameters / return members / locals hold containers (list, nested list, "
+        "dict, dict of list, set; same default text in several flows) mutated by expression statements, called 2-6 times with the argument omitted / "
+        "positional / named by await/start/activate, return values kept and re-emitted; 15% pass container variables (finding region). "
+        "restart probes: activated flow that finishes and restarts, default mutated in place or re-assigned, argument omitted or supplied. "
+        "non-trivial = at least one parameter "
         "bound from an argument or default (fn) / at least one call with arguments or a return value (e2e, probe); "
         "distinct = distinct case JSON.")
 TRUSTED_BASE = [
@@ -41,7 +48,8 @@ TRUSTED_BASE = [
     "rendering of the generated program AST to Colang source (harness) — both sides start from the same AST",
 ]
 ASSUMPTIONS = [
-    "values are immutable in the model: in-place mutation through expression side effects (list.append, AttributeDict write-back) is outside it — probed end-to-end, recorded as an open finding",
+    "value model `exec`: values are immutable; heap model `hexec`: every user value is a heap cell holding a tree (no addresses inside a cell: objects nested in a passed container and mutated through a path, and the AttributeDict write-back, are outside it); eleven container methods are modelled",
+    "programs that mutate in place run in a forked child of the worker (process-wide state of the code under test cannot leak between cases); emitted events are observed with the values they have at emission (deep copy on append to state.outgoing_events); callee entry contexts are snapshots taken by a wrapper around `_start_flow`",
     "user variables do not start with `_` (the expansion's hidden `_ref_…`/`_event_ref_…` variables live in the same context); parameter names are identifiers, never `$<digits>`",
     "e2e fragment: callee bodies run synchronously to their end or to `match Never()` (the event queue is abstracted; the FlowStarted / FlowFinished matches of a call go through the C04 matcher model, pattern evaluated at match time); defaults are evaluated once per call in the empty context",
     "modelled by hand: create_flow_instance, _start_flow, slide branches Assignment/Global/Return, _get_eval_context + `$var` lookup of eval_expression, FlowState.finished_event/_create_out_event, the expansion shape of `$x = await f(..)`",
@@ -90,6 +98,9 @@ def render_val(v):
         return "[" + ", ".join(render_val(x) for x in v) + "]"
     if isinstance(v, dict):
         return "{" + ", ".join(json.dumps(k) + ": " + render_val(x) for k, x in v.items()) + "}"
+    if isinstance(v, (set, frozenset)):
+        assert v, "the empty set has no literal"
+        return "{" + ", ".join(render_val(x) for x in sorted(v, key=repr)) + "}"
     raise ValueError(v)
 
 
@@ -102,6 +113,8 @@ def render_expr(e):
         return "[" + render_expr(e["l1"]) + "]"
     if "l2" in e:
         return "[" + render_expr(e["l2"][0]) + ", " + render_expr(e["l2"][1]) + "]"
+    if "d1" in e:
+        return "{" + json.dumps(e["d1"][0]) + ": " + render_expr(e["d1"][1]) + "}"
     raise ValueError(e)
 
 
@@ -130,6 +143,11 @@ def render_stmt(st):
         args = [render_expr(e) for e in st["pos"]] + [f"{k}={render_expr(e)}" for k, e in st["named"]]
         s = f"{st['form']} {st['flow']}" + ("(" + ", ".join(args) + ")" if args else "")
         return (f"${st['ret']} = " if st.get("ret") else "") + s
+    if op == "mut":
+        # in-place mutation through an expression side effect: `($x.append(..))` / `$z = $x[0].append(..)`
+        tgt = "$" + st["var"] + "".join("[" + json.dumps(k) + "]" for k in st["path"])
+        call = f"{tgt}.{st['meth']}(" + ", ".join(render_expr(e) for e in st["args"]) + ")"
+        return f"${st['ret']} = {call}" if st.get("ret") else f"({call})"
     if op == "raw":
         return st["src"]
     raise ValueError(op)
@@ -317,6 +335,9 @@ def g_prog(rng, mode=None):
         params = g_params(rng, reserved_p=0.03 if mode == "reserved" else 0.0, pool=RESERVED[:5])
         if mode == "reserved" and params and i == 0:
             params[0]["name"] = rng.choice(RESERVED[:5])
+            for q in params[1:]:  # parameter names stay distinct (a signature with a repeated name is outside the statement)
+                if q["name"] == params[0]["name"]:
+                    q["name"] = next(n_ for n_ in PNAMES if n_ not in [x["name"] for x in params])
         flows.append({"name": nm, "params": params, "rets": [], "body": []})
     by_name = {f["name"]: f for f in flows}
     forms = {nm: rng.choice(["await", "await", "await", "start", "activate"]) for nm in names}
@@ -392,10 +413,231 @@ def g_prog(rng, mode=None):
     return {"kind": "e2e", "prog": {"flows": flows, "main": main}, "mode": mode or "plain"}
 
 
+# --- histories with in-place mutation (kind e2e, modes hist / hist-passed).  The statement: a parameter whose argument is
+#     omitted receives its *declared default* — in every instance, whatever earlier instances did with theirs — and a
+#     caller's variable holding a returned value does not change when a sibling instance runs.  Programs: flows whose
+#     parameters / return members / locals hold containers (list, nested list, dict, dict of list, set) and are mutated in
+#     place (`($p.append(..))`, `($d.update(..))`, `($n[0].append(..))`, `$z = $p.pop()` …); main calls the same flow (and
+#     flows that declare the same default text) several times with the argument omitted / positional / named, by
+#     await / start / activate, keeps the returned values, mutates its own same-named locals between the calls.
+#     mode `hist`: nothing mutable is passed across (arguments are literals or scalar variables) — every instance owns its
+#     values, the value-semantics reference evaluator is exact.  mode `hist-passed`: container *variables* are passed /
+#     returned values are mutated: the region of the open finding `inplace-mutation-of-passed-container`.
+
+HIST_DEFAULTS = {
+    "list": [[], [], [], [1], ["x"], [1, 2]],
+    "nested": [[[1], [2]], [[]], [[], ["y"]]],
+    "dict": [{}, {}, {"k": 1}, {"j": "s", "k": 2}],
+    "dictl": [{"k": [1]}, {"k": []}],
+    "set": [{1, 2}, {"s"}, {3}],
+    "scalar": [0, 7, "s", None, True, 1.5],
+}
+HIST_TYPES = ["list", "list", "list", "nested", "dict", "dict", "dictl", "set", "scalar"]
+HIST_SCALARS = [2, 3, 7, 12, "t", "hello"]
+
+
+def g_mut(rng, var, typ, scal_vars, ret=None):
+    """a type-correct in-place mutation of `$var` (list of statements: `pop` only straight after an `append`)"""
+    def sc():
+        if scal_vars and rng.random() < 0.4:
+            return {"var": rng.choice(scal_vars)}
+        return lit(rng.choice(HIST_SCALARS))
+
+    def m(meth, args, path=(), r=None):
+        return {"op": "mut", "var": var, "path": list(path), "meth": meth, "args": args, "ret": r}
+
+    if typ == "list":
+        c = rng.choice(["append", "append", "append", "extend", "insert", "append-pop", "clear"])
+        if c == "append":
+            return [m("append", [sc()], r=ret)]
+        if c == "extend":
+            return [m("extend", [lit([rng.choice(HIST_SCALARS), rng.choice(HIST_SCALARS)])])]
+        if c == "insert":
+            return [m("insert", [lit(0), sc()])]
+        if c == "append-pop":
+            return [m("append", [sc()]), m("append", [sc()]), m("pop", [], r=ret)]
+        return [m("clear", [])]
+    if typ == "nested":
+        c = rng.choice(["in0", "in0", "top", "clear0"])
+        if c == "in0":
+            return [m("append", [sc()], path=[0])]
+        if c == "top":
+            return [m("append", [lit([rng.choice(HIST_SCALARS)])])]
+        return [m("clear", [], path=[0])]
+    if typ == "dict":
+        c = rng.choice(["update", "update", "update", "pop", "clear"])
+        if c == "update":
+            return [m("update", [{"d1": [rng.choice(["k", "z", "q"]), sc()]}])]
+        if c == "pop":
+            return [m("pop", [lit(rng.choice(["k", "z"])), lit(None)], r=ret)]
+        return [m("clear", [])]
+    if typ == "dictl":
+        c = rng.choice(["ink", "ink", "update"])
+        if c == "ink":
+            return [m("append", [sc()], path=["k"])]
+        return [m("update", [{"d1": [rng.choice(["z", "q"]), sc()]}])]
+    if typ == "set":
+        c = rng.choice(["add", "add", "add", "discard", "clear"])
+        if c == "add":
+            return [m("add", [lit(rng.choice(HIST_SCALARS))])]
+        if c == "discard":
+            return [m("discard", [lit(rng.choice([1, 2, 3, "s", 7]))])]
+        return [m("clear", [])]
+    raise ValueError(typ)
+
+
+def g_hist(rng, passed=False):
+    nfl = rng.choice([1, 2, 2, 3])
+    names = CALLEES[:nfl]
+    forms = {nm: rng.choice(["await", "await", "await", "await", "start", "start", "activate"]) for nm in names}
+    use_global = rng.random() < 0.25
+    gtyp = rng.choice(["list", "dict", "set"])
+    shared_default = {t: rng.choice(v) for t, v in HIST_DEFAULTS.items()}  # same default text in several flows/parameters
+    flows, types, rtype = [], {}, {}
+    for nm in names:
+        params, ty = [], {}
+        if rng.random() < 0.6:
+            params.append({"name": "item", "default": None})
+            ty["item"] = "scalar"
+        for pn in rng.sample(["a", "b", "c", "p"], rng.choice([1, 1, 2, 2, 3])):
+            t = rng.choice(HIST_TYPES)
+            d = shared_default[t] if rng.random() < 0.6 else rng.choice(HIST_DEFAULTS[t])
+            params.append({"name": pn, "default": lit(d)})
+            ty[pn] = t
+        rets = []
+        if rng.random() < 0.3:
+            t = rng.choice(HIST_TYPES[:-1])
+            rets.append({"name": "r", "default": lit(shared_default[t] if rng.random() < 0.6 else rng.choice(HIST_DEFAULTS[t]))})
+            ty["r"] = t
+        flows.append({"name": nm, "params": params, "rets": rets, "body": []})
+        types[nm] = ty
+    by_name = {f["name"]: f for f in flows}
+
+    def call(target, form, scope_ty, ret=None):
+        """arguments: omitted (mostly) | fresh literal of the parameter's type | scalar variable; hist-passed: container variables"""
+        params = by_name[target]["params"]
+        ty = types[target]
+        k = rng.choice([0, 0, 0, 1, 1, 2]) if params else 0
+        k = min(k, len(params))
+
+        def arg(pn):
+            t = ty[pn]
+            # (variables are passed for flat container types only: a cell of the heap model holds a tree, objects nested
+            #  inside a passed dict/list that are mutated through a path are outside it — see Models/BindHeap.lean)
+            if passed and t not in ("nested", "dictl") and rng.random() < 0.6:
+                cands = [v for v, vt in scope_ty.items() if vt == t or vt == "ret:" + t]
+                if cands:
+                    return {"var": rng.choice(cands)}
+            if t == "scalar":
+                sv = [v for v, vt in scope_ty.items() if vt == "scalar"]
+                if sv and rng.random() < 0.4:
+                    return {"var": rng.choice(sv)}
+                return lit(rng.choice(HIST_SCALARS))
+            return lit(rng.choice(HIST_DEFAULTS[t]))
+
+        pos = [arg(p["name"]) for p in params[:k]]
+        named = [[p["name"], arg(p["name"])] for p in params[k:] if rng.random() < 0.2]
+        rng.shuffle(named)
+        return {"op": "call", "form": form, "ret": ret, "flow": target, "pos": pos, "named": named}
+
+    for i in reversed(range(nfl)):
+        f = flows[i]
+        ty = dict(types[f["name"]])
+        body = []
+        if use_global and rng.random() < 0.5:
+            body.append({"op": "global", "name": "g"})
+            ty["g"] = gtyp
+        echo = [p["name"] for p in f["params"]] + [r["name"] for r in f["rets"]] + (["g"] if "g" in ty else [])
+        body.append({"op": "send", "name": "In" + f["name"].capitalize(), "args": [[v, {"var": v}] for v in echo]})
+        for lv in LOCALS:
+            if rng.random() < 0.5:
+                t = rng.choice(HIST_TYPES[:-1])
+                body.append({"op": "assign", "key": lv, "e": lit(rng.choice(HIST_DEFAULTS[t]))})
+                ty[lv] = t
+        if rng.random() < 0.1:
+            pn = rng.choice([p["name"] for p in f["params"]])
+            if ty[pn] != "scalar":  # re-assign a parameter with a fresh literal, then (maybe) mutate it
+                body.append({"op": "assign", "key": pn, "e": lit(rng.choice(HIST_DEFAULTS[ty[pn]]))})
+        cont = [v for v, t in ty.items() if t != "scalar" and not t.startswith("ret")]
+        scal = [v for v, t in ty.items() if t == "scalar"]
+        for _ in range(rng.choice([1, 1, 2, 3]) if cont else 0):
+            v = rng.choice(cont)
+            ret = rng.choice([None, None, None, "z"])
+            body.extend(g_mut(rng, v, ty[v], scal, ret=ret))
+        if i + 1 < nfl and forms[f["name"]] == "await" and rng.random() < 0.4:
+            tgt = rng.choice(names[i + 1:])
+            if forms[tgt] == "await":
+                has_ret = any(s_["op"] == "ret" for s_ in by_name[tgt]["body"])
+                body.append(call(tgt, "await", ty, ret="x" if has_ret else None))
+                if has_ret:
+                    ty["x"] = "ret:" + rtype[tgt]
+        allv = [v for v in ty if v not in ("z",)]
+        body.append({"op": "send", "name": "Out" + f["name"].capitalize(), "args": [[v, {"var": v}] for v in allv]})
+        if forms[f["name"]] == "await":
+            if rng.random() < 0.9:
+                r = rng.random()
+                rcont = [v for v in cont if passed or v != "g"]  # a returned global stays shared with everybody (passed across)
+                if rcont and r < 0.65:
+                    rv_ = rng.choice(rcont)
+                    e = {"var": rv_}
+                    rtype[f["name"]] = ty[rv_]
+                elif r < 0.8 and scal:
+                    e = {"l2": [{"var": rng.choice(scal)}, lit(rng.choice(HIST_SCALARS))]}
+                    rtype[f["name"]] = "list"
+                else:
+                    rt_ = rng.choice(list(HIST_DEFAULTS))
+                    e = lit(rng.choice(HIST_DEFAULTS[rt_]))
+                    rtype[f["name"]] = rt_
+                body.append({"op": "ret", "e": e})
+        else:
+            body.append({"op": "block"})
+        f["body"] = body
+
+    main, ty = [], {}
+    if use_global:
+        main.append({"op": "global", "name": "g"})
+        main.append({"op": "assign", "key": "g", "e": lit(rng.choice(HIST_DEFAULTS[gtyp]))})
+        ty["g"] = gtyp
+    for lv in LOCALS + ["a"]:
+        if rng.random() < 0.5:
+            t = rng.choice(HIST_TYPES)
+            main.append({"op": "assign", "key": lv, "e": lit(rng.choice(HIST_DEFAULTS[t]))})
+            ty[lv] = t
+    ncalls = rng.choice([2, 3, 3, 4, 5, 6])
+    activated, nret = set(), 0
+    for ci in range(ncalls):
+        tgt = rng.choice(names)
+        form = forms[tgt]
+        if form == "activate":
+            if tgt in activated:
+                continue
+            activated.add(tgt)
+        has_ret = any(s_["op"] == "ret" for s_ in by_name[tgt]["body"])
+        if form == "await" and has_ret and rng.random() < 0.9:
+            nret += 1
+            rv = "x%d" % nret
+            main.append(call(tgt, form, ty, ret=rv))
+            ty[rv] = "ret:" + rtype[tgt]
+        else:
+            main.append(call(tgt, form, ty))
+        mine = [v for v, t in ty.items() if t != "scalar" and not t.startswith("ret")]
+        if mine and rng.random() < 0.35:
+            v = rng.choice(mine)
+            main.extend(g_mut(rng, v, ty[v], [x for x, t in ty.items() if t == "scalar"]))
+        if passed and nret and rng.random() < 0.3:  # mutate a returned value (shared with the finished callee as the code is)
+            main.append({"op": "mut", "var": "x%d" % rng.randrange(1, nret + 1), "path": [], "meth": "clear", "args": [], "ret": None})
+        if rng.random() < 0.6:
+            main.append({"op": "send", "name": "Mid", "args": [[v, {"var": v}] for v in ty]})
+    main.append({"op": "send", "name": "Fin", "args": [[v, {"var": v}] for v in ty]})
+    main.append({"op": "block"})
+    return {"kind": "e2e", "prog": {"flows": flows, "main": main}, "mode": "hist-passed" if passed else "hist"}
+
+
 # --- probes (oracle only): event-driven privacy, in-place aliasing
 
 def g_probe(rng):
-    t = rng.choice(["siblings", "siblings", "callee-waits", "callee-waits", "inplace-list-callee", "inplace-list-caller", "inplace-dict", "reassign"])
+    t = rng.choice(["siblings", "siblings", "callee-waits", "callee-waits", "inplace-list-callee", "inplace-list-caller", "inplace-dict", "reassign",
+                    "siblings-own-default", "siblings-own-default"])
     var = rng.choice(["v", "w", "item"])
     vals = rng.sample(SCALARS_DISTINCT[1:], 4)
     form = rng.choice(["start", "activate"])
@@ -407,6 +649,40 @@ def g_probe(rng):
         rng.shuffle(order)
         events = [{"type": "Go", "n": i} for i in order]
         expect = [["Em", {"v": vals[1]}]] + [["Ef", {"n": i, "v": [i, vals[0]]}] for i in order]
+    elif t == "siblings-own-default":
+        # waiting sibling instances of one flow, each mutating ITS OWN defaulted parameter / local in place before and after the
+        # wait (resumed in random order): every instance shows only what it did itself
+        k = rng.choice([2, 3])
+        typ = rng.choice(["list", "list", "set", "dict"])
+        d = rng.choice(HIST_DEFAULTS[typ])
+        m1 = {"list": "($b.append($n))", "set": "($b.add($n))", "dict": '($b.update({"id": $n}))'}[typ]
+        m2 = {"list": f"($b.append({render_val(vals[0])}))", "set": f"($b.add({render_val(vals[0])}))", "dict": f'($b.update({{"z": {render_val(vals[0])}}}))'}[typ]
+        loc = rng.random() < 0.5
+        src = (f"flow fa $n $b={render_val(d)}\n" + (f"  ${var} = {render_val(d)}\n  {m1.replace('$b', '$' + var)}\n" if loc else "") + f"  {m1}\n  match Go(n=$n)\n  {m2}\n"
+               f"  send Ef(n=$n, b=$b" + (f", v=${var}" if loc else "") + ")\n  match Never()\n\n"
+               "flow main\n" + "".join(f"  {form} fa({i + 1})\n" for i in range(k)) + "  match Never()\n")
+        order = list(range(1, k + 1))
+        rng.shuffle(order)
+        events = [{"type": "Go", "n": i} for i in order]
+
+        def after(i, both):
+            v = copy.deepcopy(d)
+            if typ == "list":
+                v.append(i)
+                if both:
+                    v.append(vals[0])
+            elif typ == "set":
+                v.add(i)
+                if both:
+                    v.add(vals[0])
+            else:
+                v["id"] = i
+                if both:
+                    v["z"] = vals[0]
+            return v
+
+        expect = [["Ef", dict({"n": i, "b": after(i, True)}, **({"v": after(i, False)} if loc else {}))] for i in order]
+        # (form `activate`: distinct `n` make distinct activated instances)
     elif t == "callee-waits":
         src = (f"flow fa ${var}\n  send E1(v=${var})\n  match Go()\n  send E2(v=${var})\n  ${var} = {render_val(vals[2])}\n  send E3(v=${var})\n  match Never()\n\n"
                f"flow main\n  ${var} = {render_val(vals[0])}\n  {form} fa(${var})\n  ${var} = {render_val(vals[1])}\n  send Em(v=${var})\n  match Done()\n  send Em2(v=${var})\n  match Never()\n")
@@ -435,6 +711,34 @@ def g_probe(rng):
         expect = None  # order of Ef/Em is decided by conflict resolution; only the values are checked
         return {"kind": "probe", "tmpl": t, "src": src, "events": events, "expect_vals": {"Ef": {"v": {"k": vals[1]}}, "Em": {"v": {"k": vals[0]}}}}
     return {"kind": "probe", "tmpl": t, "src": src, "events": events, "expect": expect}
+
+
+# --- probes: an ACTIVATED flow restarts when it finishes.  The restarted instance is started by the interpreter on behalf of
+#     the original `activate f(..)`: every parameter the caller omitted must again be its declared default, whatever the
+#     finished instance did with its own parameter; a supplied argument must again be the supplied value.
+
+def g_restart_probe(rng):
+    t = rng.choice(["list", "list", "nested", "dict", "dictl", "set"])
+    d = rng.choice(HIST_DEFAULTS[t])
+    how = rng.choice(["inplace", "inplace", "inplace", "reassign"])
+    supplied = rng.random() < 0.25
+    n_go = rng.choice([1, 2, 3])
+    if how == "inplace":
+        muts = [st for _ in range(rng.choice([1, 2])) for st in g_mut(rng, "b", t, ["n"])]
+        # (supplied + shrinking mutation would block the caller's hand-shake: keep the growing ones there)
+        if supplied:
+            muts = [m for m in muts if m["meth"] in ("append", "extend", "add") or (m["meth"] == "update" and t == "dictl")] or \
+                   [{"op": "mut", "var": "b", "path": [], "meth": {"list": "append", "nested": "append", "set": "add"}.get(t, "update"),
+                     "args": [lit(7)] if t in ("list", "nested", "set") else [{"d1": ["zz", lit(7)]}], "ret": None}]
+        body = [render_stmt(m) for m in muts]
+    else:
+        body = ["$b = [$b, 1]"]
+    src = (f"flow fa $n=0 $b={render_val(d)}\n  send E(b=$b, n=$n)\n" + "".join("  " + l + "\n" for l in body) + "  $n = $n + 1\n  match Go()\n\n"
+           "flow main\n  activate fa" + (f"(5, {render_val(d)})" if supplied else "") + "\n  match Never()\n")
+    n0 = 5 if supplied else 0
+    expect = [["E", {"b": copy.deepcopy(d), "n": n0}] for _ in range(n_go + 1)]
+    return {"kind": "probe", "tmpl": "restart-" + how + ("-supplied" if supplied else "-omitted") + ":" + t, "src": src,
+            "events": [{"type": "Go"}] * n_go, "expect": expect}
 
 
 # --- probes: return-value capture inside bodies that the `when` expansion duplicates (one copy per group of an
@@ -534,13 +838,17 @@ def g_when_probe(rng):
 
 
 def gen_cases(rng, tier):
+    global _TIER
+    _TIER = tier
     n_fn, n_e2e, n_probe = (5000, 300, 60) if tier == "quick" else (200000, 10000, 1000)
     cases = enum_fn_shapes(3)
     cases += [g_fn(rng) for _ in range(n_fn)]
     modes = [None] * 12 + ["clash", "clash", "surplus", "unknown-named", "dup-named", "reserved"]
     cases += [g_prog(rng, rng.choice(modes)) for _ in range(n_e2e)]
+    cases += [g_hist(rng, passed=rng.random() < 0.15) for _ in range(n_e2e if tier == "quick" else n_e2e // 2)]
     cases += [g_probe(rng) for _ in range(n_probe)]
     cases += [g_when_probe(rng) for _ in range(2 * n_probe)]
+    cases += [g_restart_probe(rng) for _ in range(n_probe)]
     return cases
 
 
@@ -587,7 +895,7 @@ def _items(d, main_uid=None):
         if main_uid is not None and v == main_uid:
             v = "@main"
         try:
-            out.append([k, vj.enc(v)])
+            out.append([k, canon_j(vj.enc(v))])
         except ValueError:
             out.append([k, {"s": "<" + type(v).__name__ + ">"}])
     return out
@@ -631,12 +939,37 @@ def _clean_event(e):
 
 def _enc_safe(v):
     try:
-        return vj.enc(v)
+        return canon_j(vj.enc(v))
     except ValueError:
         return {"s": "<" + type(v).__name__ + ">"}
 
 
 CASE_TIMEOUT_S = 20
+
+
+class _SnapList(list):
+    """`state.outgoing_events`: an emitted event is observed with the argument values it has when it is emitted (the
+    event dict refers to the very objects the flow's variables hold; a later in-place mutation must not rewrite what
+    was observed)"""
+
+    def append(self, e):
+        try:
+            e = copy.deepcopy(e)
+        except Exception:  # noqa — an argument that cannot be copied is kept as it is
+            pass
+        super().append(e)
+
+
+def canon_j(j):
+    """encoded value with sets in a canonical element order (iteration order of a hash set is not part of any contract)"""
+    if isinstance(j, dict):
+        if "S" in j:
+            return {"S": sorted((canon_j(x) for x in j["S"]), key=lambda x: json.dumps(x, sort_keys=True))}
+        if "l" in j:
+            return {"l": [canon_j(x) for x in j["l"]]}
+        if "d" in j:
+            return {"d": [[k, canon_j(v)] for k, v in j["d"]]}
+    return j
 
 
 class _Timeout(BaseException):
@@ -655,6 +988,20 @@ def run_prog(src, events):
         obs["skip"] = "parse:" + type(e).__name__ + ":" + str(e)[:80]
         return obs
     out = []
+    st.outgoing_events = _SnapList()
+    entries = []
+    orig_start = sm._start_flow
+
+    def start_flow_spy(state, flow_state, event_arguments):
+        # what the callee sees when it starts: its context right after `_start_flow` (values copied at that moment)
+        orig_start(state, flow_state, event_arguments)
+        if flow_state.flow_id != "main":
+            try:
+                entries.append([flow_state.flow_id, _items(copy.deepcopy(_visible(flow_state.context)))])
+            except Exception:  # noqa
+                entries.append([flow_state.flow_id, [["<uncopyable>", None]]])
+
+    sm._start_flow = start_flow_spy
 
     def on_alarm(signum, frame):
         raise _Timeout()
@@ -676,21 +1023,67 @@ def run_prog(src, events):
     finally:
         signal.alarm(0)
         signal.signal(signal.SIGALRM, old_handler)
+        sm._start_flow = orig_start
         if old_left:
             signal.alarm(max(1, old_left - 1))
+    obs["entries"] = entries
     obs["out"] = [_clean_event(e) for e in out]
     obs["insts"] = [[fs.flow_id, _items(_visible(fs.context))] for fs in st.flow_states.values()]
     obs["globals"] = _items(st.context)
     return obs
 
 
+def _isolated(src, events):
+    """run one program in a forked child of this worker.  The worker itself never executes a program, so every program
+    starts from the process state left by the imports alone: module-level state of the code under test (caches,
+    registries — e.g. a memoised default value polluted by an earlier program) cannot carry over from one case to the
+    next, and a replay file reproduces in a fresh process exactly what the search saw."""
+    import os
+
+    r, w = os.pipe()
+    pid = os.fork()
+    if pid == 0:
+        code = 1
+        try:
+            os.close(r)
+            data = json.dumps(run_prog(src, events)).encode()
+            with os.fdopen(w, "wb") as fh:
+                fh.write(data)
+            code = 0
+        finally:
+            os._exit(code)
+    os.close(w)
+    with os.fdopen(r, "rb") as fh:
+        data = fh.read()
+    os.waitpid(pid, 0)
+    if not data:
+        return {"src": src, "exc": "other:child-died", "out": [], "insts": [], "globals": []}
+    return json.loads(data)
+
+
+def _mutates(case):
+    """does the program mutate a value in place?  Only such a program can change an object that the code under test
+    keeps at module level (a memoised default, …) — those run isolated; a program without in-place mutation cannot leave
+    anything behind and runs in the worker itself (a fork of a worker costs ~20 ms)"""
+    if case["kind"] == "e2e":
+        p = case["prog"]
+        return any(s_["op"] == "mut" for b in [p["main"]] + [f["body"] for f in p["flows"]] for s_ in b)
+    return case["kind"] == "probe" and (case["tmpl"].startswith(("inplace-", "restart-")) or ".append(" in case["src"] or ".update(" in case["src"])
+
+
+_TIER = None  # set by gen_cases in the parent before the worker pool is forked
+
+
 def run_impl(case):
     if case["kind"] == "fn":
         return run_fn(case)
+    # quick tier / replay / shrinking: EVERY program runs isolated (a replay must reproduce in a fresh process whatever
+    # module-level state an earlier program left in the code under test); thorough tier: the programs that mutate in place
+    iso = _TIER != "thorough" or _mutates(case)
     if case["kind"] == "e2e":
-        return run_prog(render_prog(case["prog"]), [])
+        return (_isolated if iso else run_prog)(render_prog(case["prog"]), [])
     if case["kind"] == "probe":
-        return run_prog(case["src"], case["events"])
+        return (_isolated if iso else run_prog)(case["src"], case["events"])
     raise ValueError(case["kind"])
 
 
@@ -705,9 +1098,14 @@ def model_requests(case, obs):
         return []
     if case["kind"] == "fn":
         return [{"m": "C08.bind", "params": case["params"], "rets": case["rets"], "ev": case["ev"], "main": False, "asis": not REPAIRED}]
+    if case["kind"] == "e2e" and case.get("mode", "").startswith("hist"):
+        # in-place mutation: only the heap interpreter models it
+        p = case["prog"]
+        return [{"m": "C08.hexec", "flows": p["flows"], "main": p["main"], "fuel": _fuel(p)}]
     if case["kind"] == "e2e":
         p = case["prog"]
-        return [{"m": "C08.exec", "flows": p["flows"], "main": p["main"], "fuel": _fuel(p)}]
+        return [{"m": "C08.exec", "flows": p["flows"], "main": p["main"], "fuel": _fuel(p)},
+                {"m": "C08.hexec", "flows": p["flows"], "main": p["main"], "fuel": _fuel(p)}]
     return []
 
 
@@ -739,7 +1137,19 @@ def compare(case, obs, mouts):
         if fi != fm:
             return f"finished_event arguments: impl {fi} model {fm}"
         return None
-    # e2e
+    # e2e: every model output (value interpreter `exec`, heap interpreter `hexec`) against the real run
+    for which, m in zip(("exec", "hexec") if len(mouts) == 2 else ("hexec",), mouts):
+        d = _compare_e2e(obs, m)
+        if d:
+            return which + ": " + d
+    return None
+
+
+def _canon_items(items):
+    return [[k, canon_j(v)] for k, v in items if not (k.startswith("_") and not k.startswith("_global_") and k != "_return_value")]
+
+
+def _compare_e2e(obs, m):
     oc = m["outcome"]
     if oc == "outOfFuel":
         return "model ran out of fuel (harness budget too small)"
@@ -749,18 +1159,24 @@ def compare(case, obs, mouts):
     if "exc" in obs:
         return f"impl raised {obs['exc']}, model outcome {oc}"
     if oc == "failed":
-        return None  # caller failed on a missing return value: the failure path (main restart) is outside the fragment
-    mo = [[n, {k: v for k, v in args}] for n, args in m["out"]]
+        return None  # caller failed on a missing return value / a raising method call: the failure path (main restart) is outside the fragment
+    mo = [[n, {k: canon_j(v) for k, v in args}] for n, args in m["out"]]
     io_ = [[n, {k: v for k, v in _strip_uids(list(a.items()))}] for n, a in obs["out"]]
     mo = [[n, {k: v for k, v in _strip_uids(list(a.items()))}] for n, a in mo]
     if io_ != mo:
         return f"emitted events differ: impl {io_} model {mo}"
-    mi = [[fid, _strip_uids(ctx)] for _, fid, ctx in m["insts"]]
+    mi = [[fid, _strip_uids(_canon_items(ctx))] for _, fid, ctx in m["insts"]]
     ii = [[fid, _strip_uids(ctx)] for fid, ctx in obs["insts"]]
     if ii != mi:
         return f"instance contexts differ: impl {ii} model {mi}"
-    if obs["globals"] != m["globals"]:
+    if obs["globals"] != _canon_items(m["globals"]):
         return f"global context differs: impl {obs['globals']} model {m['globals']}"
+    if "entries" in m:
+        # per call: the callee's ENTRY context (all parameter variables and return members, no `$0..` keys, no leftovers)
+        me = [[fid, _strip_uids(_canon_items(ctx))] for _, fid, ctx in m["entries"]]
+        ie = [[fid, _strip_uids(ctx)] for fid, ctx in obs.get("entries", [])]
+        if ie != me:
+            return f"callee entry contexts differ: impl {ie} model {me}"
     return None
 
 
@@ -770,15 +1186,24 @@ class _NoExpectation(Exception):
     """the statement does not say what happens here (surplus / clash / unknown name / missing return …)"""
 
 
-def spec_eval(e, env, genv, gdecl):
+def spec_eval(e, env, genv, gdecl, share=False):
+    """value of an expression.  Default (`share=False`) is VALUE semantics: reading a variable yields a private copy, so
+    every instance owns what its variables hold (the statement: parameters receive *values*, locals are private).
+    `share=True` is the reference semantics of the code as it is (used only to classify a failure as the open finding
+    `inplace-mutation-of-passed-container`): lists/sets are passed as the object, a dict variable as a shallow copy."""
     if "lit" in e:
         return vj.dec(e["lit"])
     if "var" in e:
         x = e["var"]
-        return genv.get(x) if x in gdecl else env.get(x)
+        v = genv.get(x) if x in gdecl else env.get(x)
+        if share:
+            return dict(v) if isinstance(v, dict) else v
+        return copy.deepcopy(v)
     if "l1" in e:
-        return [spec_eval(e["l1"], env, genv, gdecl)]
-    return [spec_eval(e["l2"][0], env, genv, gdecl), spec_eval(e["l2"][1], env, genv, gdecl)]
+        return [spec_eval(e["l1"], env, genv, gdecl, share)]
+    if "d1" in e:
+        return {e["d1"][0]: spec_eval(e["d1"][1], env, genv, gdecl, share)}
+    return [spec_eval(e["l2"][0], env, genv, gdecl, share), spec_eval(e["l2"][1], env, genv, gdecl, share)]
 
 
 def _vars(exprs):
@@ -788,6 +1213,8 @@ def _vars(exprs):
             out.add(e["var"])
         elif "l1" in e:
             out |= _vars([e["l1"]])
+        elif "d1" in e:
+            out |= _vars([e["d1"][1]])
         elif "l2" in e:
             out |= _vars(e["l2"])
     return out
@@ -796,6 +1223,8 @@ def _vars(exprs):
 def spec_bind(params, pos_vals, named_vals):
     """The property text: parameter i := positional i | named | declared default | None."""
     names = [p["name"] for p in params]
+    if len(set(names)) != len(names):
+        raise _NoExpectation("repeated parameter name")
     if len(pos_vals) > len(params) or any(k not in names for k in named_vals) or any(nm in named_vals for nm in names[:len(pos_vals)]):
         raise _NoExpectation("call shape outside the statement")
     if any(nm in RESERVED or nm == "context" for nm in names):
@@ -813,10 +1242,29 @@ def spec_bind(params, pos_vals, named_vals):
     return env
 
 
-def spec_run(prog):
-    """expected emitted events, final variables per instance (creation order), globals"""
+def _is_container(v):
+    return isinstance(v, (list, dict, set))
+
+
+def _still_matches(ref, now):
+    """the documented partial-match rule for event arguments: list = prefix, dict = sub-dict, set = subset"""
+    if isinstance(ref, list):
+        return isinstance(now, list) and len(ref) <= len(now) and all(_still_matches(r, n) for r, n in zip(ref, now))
+    if isinstance(ref, dict):
+        return isinstance(now, dict) and all(k in now and _still_matches(v, now[k]) for k, v in ref.items())
+    if isinstance(ref, (set, frozenset)):
+        return isinstance(now, (set, frozenset)) and ref <= now
+    return type(ref) is type(now) and ref == now
+
+
+def spec_run(prog, share=False):
+    """expected emitted events (values as they are when the event is sent), final variables per instance (creation
+    order), globals"""
     flows = {f["name"]: f for f in prog["flows"]}
     out, insts, genv = [], [], {}
+
+    def ev(e, env, gdecl):
+        return spec_eval(e, env, genv, gdecl, share)
 
     def run(body, env, gdecl, fname):
         rec = [fname, env, gdecl]
@@ -827,31 +1275,59 @@ def spec_run(prog):
         for st in body:
             op = st["op"]
             if op == "assign":
-                v = spec_eval(st["e"], env, genv, gdecl)
+                v = ev(st["e"], env, gdecl)
                 if st["key"] in gdecl:
                     genv[st["key"]] = v
                 else:
                     env[st["key"]] = v
+            elif op == "mut":
+                # in-place mutation of the value the instance's own variable holds (Python's container methods)
+                x = st["var"]
+                obj = genv.get(x) if x in gdecl else env.get(x)
+                try:
+                    for k in st["path"]:
+                        obj = obj[k]
+                    res = getattr(obj, st["meth"])(*[ev(a, env, gdecl) for a in st["args"]])
+                except Exception as e:  # noqa — type error / missing key: the statement says nothing
+                    raise _NoExpectation("mutation raises " + type(e).__name__)
+                res = res if share else copy.deepcopy(res)
+                key = st.get("ret") or "_"
+                if key in gdecl:
+                    genv[key] = res
+                else:
+                    env[key] = res
             elif op == "global":
                 gdecl.add(st["name"])
                 genv.setdefault(st["name"], None)
             elif op == "ret":
-                return ("ret", spec_eval(st["e"], env, genv, gdecl))
+                return ("ret", ev(st["e"], env, gdecl))
             elif op == "send":
-                out.append([st["name"], {k: spec_eval(e, env, genv, gdecl) for k, e in st["args"]}])
+                out.append([st["name"], {k: copy.deepcopy(ev(e, env, gdecl)) for k, e in st["args"]}])
             elif op == "block":
                 return ("block", None)
             elif op == "call":
                 f = flows[st["flow"]]
-                pv = [spec_eval(e, env, genv, gdecl) for e in st["pos"]]
+                pv = [ev(e, env, gdecl) for e in st["pos"]]
                 nv = {}
                 for k, e in st["named"]:
                     if k in nv:
                         raise _NoExpectation("duplicate named argument")
-                    nv[k] = spec_eval(e, env, genv, gdecl)
+                    nv[k] = ev(e, env, gdecl)
                 cenv = spec_bind(f["params"], pv, nv)
+                for r in f.get("rets", []):  # return members: declared default (or None), a variable of the callee
+                    if r["name"] not in cenv:
+                        cenv[r["name"]] = spec_eval(r["default"], {}, {}, set()) if r.get("default") is not None else None
+                # the objects bound to SUPPLIED parameters, and what the caller supplied
+                sup = [(cenv[p["name"]], copy.deepcopy(cenv[p["name"]])) for i, p in enumerate(f["params"])
+                       if (i < len(pv) or p["name"] in nv) and _is_container(cenv[p["name"]])]
                 gused = {x: vj.enc(genv.get(x)) for x in _vars(st["pos"] + [e for _, e in st["named"]]) if x in gdecl}
                 res = run(f["body"], cenv, set(), f["name"])
+                if not share and any(not _still_matches(orig, now) for now, orig in sup):
+                    # the caller's FlowStarted pattern (its call arguments) is matched after the callee's synchronous run
+                    # against the event that refers to the callee's objects: a supplied container the callee mutated so
+                    # that the supplied value no longer partially matches it leaves the caller waiting (hand-shake quirk;
+                    # progress is not part of the statement, the model mirrors it)
+                    raise _NoExpectation("supplied container argument mutated before the hand-shake")
                 if any(vj.enc(genv.get(x)) != v for x, v in gused.items()):  # type-sensitive: True -> 1 is a change
                     # the callee re-assigned a global that the call passes as an argument: the caller's FlowStarted
                     # pattern is re-evaluated with the new value and the caller never resumes — progress is not part of
@@ -875,6 +1351,41 @@ def spec_run(prog):
 
 def _has_reserved(params):
     return any(p["name"] in RESERVED or p["name"] == "context" for p in params)
+
+
+def _cenc(v):
+    return canon_j(vj.enc(v))
+
+
+def oracle_e2e(case, obs, share=False):
+    try:
+        eout, einsts, egl = spec_run(case["prog"], share)
+    except _NoExpectation:
+        return None
+    if "exc" in obs:
+        return f"run_to_completion raised {obs['exc']} on a program inside the statement"
+    got = obs["out"]
+    exp = [[n, {k: _cenc(v) for k, v in a.items()}] for n, a in eout]
+    if got != exp:
+        for i, (g, e) in enumerate(itertools.zip_longest(got, exp)):
+            if g != e:
+                return f"emitted event #{i}: expected {e} got {g}"
+    # privacy: every instance ends with exactly the variables it bound/assigned itself
+    gi = obs["insts"]
+    if len(gi) != len(einsts):
+        return f"{len(gi)} flow instances, expected {len(einsts)}"
+    for idx, ((fid, ctx), (efid, eenv, egd)) in enumerate(zip(gi, einsts)):
+        if fid != efid:
+            return f"instance #{idx} is {fid}, expected {efid}"
+        c = {k: v for k, v in ctx if not k.startswith("_")}
+        e = {k: _cenc(v) for k, v in eenv.items() if not k.startswith("_")}
+        if c != e:
+            return f"instance #{idx} ({fid}) ends with variables {c}, expected {e}"
+    gg = {k: v for k, v in obs["globals"]}
+    eg = {k: _cenc(v) for k, v in egl.items()}
+    if gg != eg:
+        return f"global context {gg}, expected {eg}"
+    return None
 
 
 def oracle(case, obs):
@@ -905,39 +1416,12 @@ def oracle(case, obs):
                 return f"parameter ${nm}: expected {vj.enc(exp[nm])} got {got[nm]}"
         return None
     if case["kind"] == "e2e":
-        try:
-            eout, einsts, egl = spec_run(case["prog"])
-        except _NoExpectation:
-            return None
-        if "exc" in obs:
-            return f"run_to_completion raised {obs['exc']} on a program inside the statement"
-        got = obs["out"]
-        exp = [[n, {k: vj.enc(v) for k, v in a.items()}] for n, a in eout]
-        if got != exp:
-            for i, (g, e) in enumerate(itertools.zip_longest(got, exp)):
-                if g != e:
-                    return f"emitted event #{i}: expected {e} got {g}"
-        # privacy: every instance ends with exactly the variables it bound/assigned itself
-        gi = obs["insts"]
-        if len(gi) != len(einsts):
-            return f"{len(gi)} flow instances, expected {len(einsts)}"
-        for idx, ((fid, ctx), (efid, eenv, egd)) in enumerate(zip(gi, einsts)):
-            if fid != efid:
-                return f"instance #{idx} is {fid}, expected {efid}"
-            c = {k: v for k, v in ctx if not k.startswith("_")}
-            e = {k: vj.enc(v) for k, v in eenv.items()}
-            if c != e:
-                return f"instance #{idx} ({fid}) ends with variables {c}, expected {e}"
-        gg = {k: v for k, v in obs["globals"]}
-        eg = {k: vj.enc(v) for k, v in egl.items()}
-        if gg != eg:
-            return f"global context {gg}, expected {eg}"
-        return None
+        return oracle_e2e(case, obs)
     # probe
     if "exc" in obs:
         return f"run_to_completion raised {obs['exc']}"
     if case.get("expect") is not None:
-        exp = [[n, {k: vj.enc(v) for k, v in a.items()}] for n, a in case["expect"]]
+        exp = [[n, {k: _cenc(v) for k, v in a.items()}] for n, a in case["expect"]]
         if obs["out"] != exp:
             return f"emitted events {obs['out']}, expected {exp}"
         return None
@@ -959,14 +1443,55 @@ def signature(case, obs, msg):
         return "reserved-parameter-name"
     if case["kind"] == "probe" and case["tmpl"].startswith("inplace-"):
         return "inplace-mutation-of-passed-container"
+    if case["kind"] == "probe" and case["tmpl"].startswith("restart-inplace-omitted") and _restart_explained(case, obs):
+        return "default-not-reevaluated-on-activated-restart"
+    if case["kind"] == "probe" and case["tmpl"].startswith("restart-inplace-supplied") and _restart_explained(case, obs):
+        # the restart hands the finished instance's argument OBJECT (the caller's list) to the next instance: the
+        # passed-by-reference family
+        return "inplace-mutation-of-passed-container"
+    if case["kind"] == "e2e" and case.get("mode") == "hist-passed" and _passes_container(case["prog"]):
+        # a container *variable* is passed (or a returned value is mutated by the caller) and what was observed is exactly
+        # what sharing the passed object — and nothing else — explains: defaults fresh, everything not passed private
+        if oracle_e2e(case, obs, share=True) is None:
+            return "inplace-mutation-of-passed-container"
     return None
+
+
+def _restart_explained(case, obs):
+    """the observation is exactly what "the restarted instance is handed the finished instance's parameter OBJECTS" predicts
+    (first instance correct — declared default / supplied value —, `$n` re-bound to its value every time, and each later
+    instance's `$b` equal to what its predecessor left behind)"""
+    out = obs.get("out", [])
+    exp = case["expect"]
+    if "exc" in obs or len(out) != len(exp) or not out:
+        return False
+    if out[0] != [exp[0][0], {k: _cenc(v) for k, v in exp[0][1].items()}]:
+        return False
+    if any(o[0] != "E" or o[1].get("n") != out[0][1].get("n") for o in out):
+        return False
+    return any(o[1].get("b") != out[0][1].get("b") for o in out[1:])
+
+
+def _passes_container(prog):
+    """is a bare variable passed as a call argument, or a captured return value mutated in place, somewhere?  (an
+    OMITTED argument is not a passed container: a polluted default never gets the finding's signature)"""
+    bodies = [prog["main"]] + [f["body"] for f in prog["flows"]]
+    for b in bodies:
+        rets = {s_["ret"] for s_ in b if s_["op"] == "call" and s_.get("ret")}
+        for s_ in b:
+            if s_["op"] == "call" and any("var" in e for e in s_["pos"] + [e for _, e in s_["named"]]):
+                return True
+            if s_["op"] == "mut" and s_["var"] in rets:
+                return True
+    return False
 
 
 def nontrivial(case, obs):
     if case["kind"] == "fn":
         return len(case["params"]) >= 1 and "skip" not in obs
     if case["kind"] == "e2e":
-        return any(s["op"] == "call" and (s["pos"] or s["named"] or s.get("ret")) for s in case["prog"]["main"])
+        return any(s["op"] == "call" and (s["pos"] or s["named"] or s.get("ret")) for s in case["prog"]["main"]) or \
+            (case.get("mode", "").startswith("hist") and sum(1 for s in case["prog"]["main"] if s["op"] == "call") >= 2)
     return True
 
 
@@ -997,6 +1522,20 @@ def tags(case, obs):
             t.append("has:global")
         if any(s["op"] == "call" for f in case["prog"]["flows"] for s in f["body"]):
             t.append("has:nested-call")
+        if case["mode"].startswith("hist"):
+            pr = case["prog"]
+            bodies = [pr["main"]] + [f["body"] for f in pr["flows"]]
+            t.append("muts=%d" % min(sum(1 for b in bodies for s in b if s["op"] == "mut"), 9))
+            calls = [s for s in pr["main"] if s["op"] == "call"]
+            t.append("calls=%d" % len(calls))
+            fl = {f["name"]: f for f in pr["flows"]}
+            omitted = sum(1 for c in calls for i, p_ in enumerate(fl[c["flow"]]["params"])
+                          if p_.get("default") is not None and i >= len(c["pos"]) and p_["name"] not in [k for k, _ in c["named"]])
+            t.append("omitted-defaults=%d" % min(omitted, 9))
+            for m in sorted({s["meth"] + ("@path" if s["path"] else "") for b in bodies for s in b if s["op"] == "mut"}):
+                t.append("meth:" + m)
+            if any(f.get("rets") for f in pr["flows"]):
+                t.append("has:return-member")
     else:
         t.append("probe:" + case["tmpl"])
     return t
@@ -1008,6 +1547,8 @@ def escalate(rng, focus, tier):
     modes = [None] * 12 + ["clash", "clash", "surplus", "unknown-named", "dup-named"]
     cases += [g_prog(rng, rng.choice(modes)) for _ in range(800)]
     cases += [c for c in (g_probe(rng) for _ in range(300)) if not c["tmpl"].startswith("inplace-")]
+    cases += [g_hist(rng) for _ in range(600)]
+    cases += [c for c in (g_restart_probe(rng) for _ in range(200)) if "-reassign-" in c["tmpl"]]
     return cases
 
 
